@@ -159,6 +159,36 @@ theorem total_raiseNow_false (s : State) (e p : Nat) : total (raiseNow s e p fal
 theorem free_of_allDone (s : State) (h : allDone s.st = true) : s.free = total s := by
   have := allDone_nRunning s.st h; simp [total]; omega
 
+theorem cancelBelow_allDone : ∀ (l : List TSt) (j : Nat), l.length ≤ j → allDone (cancelBelow j l).2 = true := by
+  intro l
+  induction l with
+  | nil => intro j _; cases j <;> simp [cancelBelow, allDone]
+  | cons x r ih =>
+    intro j hj
+    cases j with
+    | zero => simp at hj
+    | succ j =>
+      have := ih j (by simp at hj; omega)
+      cases x <;> simp_all [cancelBelow, allDone, isDone]
+
+theorem admit_allDone : ∀ (l : List TSt) (f : Nat), allDone l = true → (admit f l).2 = l := by
+  intro l
+  induction l with
+  | nil => intro f _; cases f <;> simp [admit]
+  | cons x r ih =>
+    intro f h
+    simp [allDone] at h ih
+    cases f with
+    | zero => simp [admit]
+    | succ f =>
+      cases x <;> simp [isDone] at h
+      simp [admit]; exact ih (f + 1) h
+
+theorem cancelFirst_allDone (s : State) (j : Nat) (h : s.st.length ≤ j) : allDone (cancelFirst s j).st = true := by
+  have h1 := cancelBelow_allDone s.st j h
+  simp only [cancelFirst]
+  rw [admit_allDone _ _ h1]; exact h1
+
 theorem budget_step {n : Nat} (hn : 1 ≤ n) {s s' : State} {op : Op} (hb : total s = budget n s)
     (h : step s op = some s') : total s' = budget n s' := by
   cases op with
@@ -169,18 +199,140 @@ theorem budget_step {n : Nat} (hn : 1 ≤ n) {s s' : State} {op : Op} (hb : tota
       have hc := total_complete s i o hst
       have hfree := free_of_allDone (complete s i o)
       split at h
-      · next hfl =>
+      · -- return_exceptions
+        next hfl =>
         split at h
         · next had =>
           simp at h; subst h
           have := total_returnNow (complete s i o) (by
-            have := hfree had
-            cases hen : s.entry <;> cases hh : s.helper <;> simp [budget, hen, hfl, hh] at hb <;> omega)
-          cases hen : s.entry <;> cases hh : s.helper <;> simp [budget, hen, hfl, hh, bonus] at hb this ⊢ <;> omega
+            have := hfree had.2
+            cases hen : s.entry <;> simp [budget, hen, hfl, had.1] at hb <;> omega)
+          cases hen : s.entry <;> simp [budget, hen, hfl, had.1, bonus] at hb this ⊢ <;> omega
         · simp at h; subst h
           cases hen : s.entry <;> cases hh : s.helper <;> simp [budget, hen, hfl, hh] at hb ⊢ <;> omega
-      all_goals sorry
+      · -- raise, no cancel
+        next hfl =>
+        split at h
+        · next e hh =>
+          simp at h; subst h
+          have := total_raiseNow_false (complete s i (.raise e)) e (nNotDone (complete s i (.raise e)).st)
+          cases hen : s.entry <;> simp [budget, hen, hfl, hh, bonus] at hb this ⊢ <;> omega
+        · next v hh =>
+          split at h
+          · next had =>
+            simp at h; subst h
+            have := total_returnNow (complete s i (.ret v)) (by
+              have := hfree had
+              cases hen : s.entry <;> simp [budget, hen, hfl, hh] at hb <;> omega)
+            cases hen : s.entry <;> simp [budget, hen, hfl, hh, bonus] at hb this ⊢ <;> omega
+          · simp at h; subst h
+            cases hen : s.entry <;> simp [budget, hen, hfl, hh] at hb ⊢ <;> omega
+        · simp at h; subst h
+          cases hen : s.entry <;> cases hh : s.helper <;> simp [budget, hen, hfl, hh] at hb ⊢ <;> omega
+      · -- raise, cancel_on_error
+        next hfl =>
+        split at h
+        · next e hh =>
+          simp at h; subst h
+          have h1 := total_cancelFirst (complete s i (.raise e)) i
+          have := total_raiseNow_false (cancelFirst (complete s i (.raise e)) i) e (nNotDone (complete s i (.raise e)).st)
+          cases hen : s.entry <;> simp [budget, hen, hfl, hh, bonus] at hb this ⊢ <;> omega
+        · next v hh =>
+          split at h
+          · next had =>
+            simp at h; subst h
+            have := total_returnNow (complete s i (.ret v)) (by
+              have := hfree had
+              cases hen : s.entry <;> simp [budget, hen, hfl, hh] at hb <;> omega)
+            cases hen : s.entry <;> simp [budget, hen, hfl, hh, bonus] at hb this ⊢ <;> omega
+          · simp at h; subst h
+            cases hen : s.entry <;> simp [budget, hen, hfl, hh] at hb ⊢ <;> omega
+        · simp at h; subst h
+          cases hen : s.entry <;> cases hh : s.helper <;> simp [budget, hen, hfl, hh] at hb ⊢ <;> omega
+      · -- online
+        next hfl =>
+        split at h
+        · next v =>
+          split at h
+          · next had =>
+            simp at h; subst h
+            have := total_returnNow (complete s i (.ret v)) (by
+              have := hfree had.2
+              cases hen : s.entry <;> simp [budget, hen, hfl, had.1] at hb <;> omega)
+            cases hen : s.entry <;> simp [budget, hen, hfl, had.1, bonus] at hb this ⊢ <;> omega
+          · simp at h; subst h
+            cases hen : s.entry <;> cases hh : s.helper <;> simp [budget, hen, hfl, hh] at hb ⊢ <;> omega
+        · next e =>
+          have h1 := total_cancelFirst (complete s i (.raise e)) (complete s i (.raise e)).st.length
+          have h2 := cancelFirst_allDone (complete s i (.raise e)) (complete s i (.raise e)).st.length (Nat.le_refl _)
+          split at h
+          · next hh =>
+            simp at h; subst h
+            have h3 := free_of_allDone { cancelFirst (complete s i (.raise e)) (complete s i (.raise e)).st.length with exc := some e } h2
+            have := total_raiseNow { cancelFirst (complete s i (.raise e)) (complete s i (.raise e)).st.length with exc := some e } e 0 true (by
+              simp only [total] at h3 h1 hc hb ⊢
+              cases hen : s.entry <;> simp [budget, hen, hfl, hh] at hb <;> omega)
+            simp only [total] at this h1 hc hb ⊢
+            cases hen : s.entry <;> simp [budget, hen, hfl, hh, bonus] at hb this ⊢ <;> omega
+          · simp at h; subst h
+            simp only [total] at h1 hc hb ⊢
+            cases hen : s.entry <;> cases hh : s.helper <;> simp_all [budget] <;> omega
     · simp at h
-  | body o => sorry
+  | body o =>
+    simp only [step] at h
+    split at h
+    · next hfl hh =>
+      split at h
+      · next e hexc =>
+        simp at h; subst h
+        have h1 := total_cancelFirst s s.st.length
+        have := total_raiseNow_false { cancelFirst s s.st.length with exc := some e } e (nNotDone s.st)
+        simp only [total] at this h1 hb ⊢
+        cases hen : s.entry <;> simp [budget, hen, hfl, hh, bonus] at hb this ⊢ <;> omega
+      · next e0 hexc =>
+        simp at h; subst h
+        have := total_raiseNow_false s e0 0
+        cases hen : s.entry <;> simp [budget, hen, hfl, hh, bonus] at hb this ⊢ <;> omega
+      · next v hexc =>
+        have h1 := total_releaseOwn s
+        split at h
+        · next had =>
+          simp at h; subst h
+          have h3 := free_of_allDone (releaseOwn s) had
+          have := total_returnNow (releaseOwn s) (by omega)
+          cases hen : s.entry <;> simp [budget, hen, hfl, hh, bonus] at hb this ⊢ <;> omega
+        · simp at h; subst h
+          simp only [total] at h1 hb ⊢
+          cases hen : s.entry <;> simp [budget, hen, hfl, hh] at hb ⊢ <;> omega
+    · simp at h
+
+/-! ### reachable states -/
+
+/-- states reachable from the call of the helper, with the schedule that led to them -/
+inductive Reach (fl : Flavour) (en : Entry) (n : Nat) (outs : List Outcome) : State → List Op → Prop
+  | init : Reach fl en n outs (start fl en n outs) []
+  | step {s ops op s'} : Reach fl en n outs s ops → step s op = some s' → Reach fl en n outs s' (ops ++ [op])
+
+theorem nRunning_queued : ∀ (l : List Outcome), nRunning (l.map fun _ => TSt.queued) = 0
+  | [] => rfl
+  | _ :: r => by simp [nRunning, nRunning_queued r]
+
+theorem budget_init {n : Nat} (hn : 1 ≤ n) (fl : Flavour) (en : Entry) (outs : List Outcome) :
+    total (start fl en n outs) = budget n (start fl en n outs) := by
+  have hq := nRunning_queued outs
+  have h1 := admit_conserve (outs.map fun _ => TSt.queued) (valueAtCall n en)
+  have h2 := admit_conserve (outs.map fun _ => TSt.queued) (valueAtCall n en + 1)
+  cases fl <;> cases en <;> simp only [start, total, valueAtCall] at * <;>
+    first
+    | (simp only [budget]; omega)
+    | (split
+       · simp [leave, admit, budget, nRunning]; try omega
+       · simp only [budget]; omega)
+
+theorem reach_budget {fl : Flavour} {en : Entry} {n : Nat} {outs : List Outcome} {s : State} {ops : List Op} (hn : 1 ≤ n)
+    (h : Reach fl en n outs s ops) : total s = budget n s := by
+  induction h with
+  | init => exact budget_init hn fl en outs
+  | step _ hs ih => exact budget_step hn ih hs
 
 end HailVerif.Gather
